@@ -190,8 +190,11 @@ def refusal_honoured(ctx: Ctx):
                 break
         n += 1
         inst = f"{fn.qualname}: enter site"
+        poss = rules.possible_current_classes(repo, fn)
         if verdict and verdict[0] == "ok":
             ctx.ok("D4", "TS.refusal-honoured", inst, fn, s.node, verdict[1])
+        elif poss is not None and not (poss & {"ServicingTrip", "ServicingPoolingTrip"}):
+            ctx.ok("D4", "TS.refusal-honoured", inst, fn, s.node, f"reached only while the vehicle's activity is one of {sorted(poss)}: no passengers on board here")
         elif fn.qualname in UNPAIRED_ENTER_ALLOWED:
             ctx.ok("D4", "TS.refusal-honoured", inst, fn, s.node, "allowed: " + UNPAIRED_ENTER_ALLOWED[fn.qualname])
         else:
